@@ -141,6 +141,59 @@ CHECKS = [
         "DESIGN.md §7 C12",
         note=TB + " Laziness itself (that the Python call evaluates no chunk) cannot be expressed in the functional model: it is "
                   "observed by instrumentation on every generated configuration, not proved."),
+    chk("C09",
+        "Lean theorems over a bug-for-bug model of _compute_label_chunk_bitmask + find_group_cohorts (any number of label axes, any "
+        "thresholds): whatever the planner returns lists every present label exactly once and each cohort's blocks contain every block "
+        "holding a member of its labels (or it is the unused ('map-reduce', {}) answer of merge=False); 'blockwise' only if every "
+        "present label sits in one block; cohort blocks are exactly the union of its labels' blocks; an element is picked up by exactly "
+        "one (cohort, label) slot; the planner always answers (its two asserts never fire; cohorts with equal block unions are joined). Tie: differential execution of the real planner against the model "
+        "(exact outcome incl. dict order), exhaustive over all label vectors in {-1,0,1,2}^n with all chunk layouts (n<=7, 2x3/3x2 grids) "
+        "in the thorough tier and sampled planted patterns beyond; the graph half of the property (dependency closures of every output "
+        "chunk of real lazy results, provenance sums of 2**i data for every method) is observed on the real dask graphs, not proved.",
+        "Lean 4 proof over a hand-written model; correspondence (differential) tie incl. exhaustive small-scope enumeration; "
+        "dependency-closure and provenance observation of real dask graphs; failing-input search",
+        "DESIGN.md §7 C09",
+        TB + " C09: dask graph construction (subset_to_blocks / _tree_reduce wiring) is not modelled - closures and provenance are runtime "
+        "observations; float thresholds equal the model's exact comparisons only below 196 blocks per label. "
+        "The defects found by this check (C09-F1 silent wrong result from a per-cohort layer-name collision on N-D block grids, C09-F12 "
+        "AssertionError on a dict-key collision) are repaired in /repo; their witnesses run first as corpus cases."),
+    chk("C13",
+        "Lean theorems over a generic task-graph / scheduler model (tasks = functions of the values of the keys they read; memo "
+        "table; schedules with repeated executions, lost results and shipped tasks): the table of ANY complete dependency-respecting "
+        "schedule is the unique solution of the graph's equations (spec `Solution`, no schedule mentioned), hence any two "
+        "interleavings agree; re-executing any subset of tasks any number of times at any later position is always possible and "
+        "changes nothing; losing results and recomputing them never stores a different value; a faithful pickle round trip of tasks "
+        "changes no schedule's result; all for arbitrary graphs and sizes. Necessity of purity shown by kernel-checked "
+        "counterexamples over tasks that write into an input shared with a sibling (result depends on order and on re-execution). "
+        "PARTIAL by nature: that flox's Python callables ARE pure is a runtime fact, observed not proved: every task of real graphs "
+        "(29 reductions x plans x engines x label kinds x 1-D/2-D x chunkings x raw/optimised graphs, 3 scans) is executed by an "
+        "instrumented executor with read-only + hashed inputs, hashed task state, double execution, cloudpickle round trips (before "
+        "and after the first execution), later re-executions and lost results, on frozen and on writable buffers, and compared "
+        "bitwise with dask's synchronous and threaded (x5) schedulers, the eager result, and the user's arrays before/after; thorough "
+        "enumerates all interleavings and all re-execution subsets of small graphs. The real graphs' key/dependency structure and "
+        "the executed schedules are replayed in the Lean model (must accept them, one table) and an independent recursion is "
+        "checked against the Lean spec.",
+        "Lean 4 proof over a generic scheduler model; instrumented execution of the real task graphs (purity / re-execution / "
+        "serialisation observed per task) tied to the model through the graphs' structure and the executed schedules; exhaustive "
+        "interleavings of small graphs; failing-input search",
+        "DESIGN.md §7 C13",
+        note=TB + " Purity of Python callables, aliasing views and pickling of closures are runtime behaviours: observed on every "
+                  "executed task, not proved."),
+    chk("C07",
+        "Lean theorems (all sizes, by induction): the bin code flox computes (np.digitize - 1, the within_bins mask and, for a "
+        "non-contiguous IntervalIndex, the gap mask) equals the pandas.cut code on every sorted non-overlapping interval list - "
+        "contiguous or with gaps - for every value incl. NaN/+-inf and both closed sides, and is i exactly when the value lies in "
+        "interval i; ravel_multi_index(mode='wrap') with the -1 restore is inverted by unravel, is injective on in-range code "
+        "tuples and is -1 iff some grouper dropped the element; hence every entry (i, j, ...) of the reshaped result is the NumPy "
+        "reduction of exactly the elements whose code tuple is (i, j, ...); broadcasting of size-1 grouper axes commutes with "
+        "coding; for dask labels the block-by-block factorisation against the global found groups equals the whole-array "
+        "factorisation (lazy = eager). Tie: differential execution of _convert_expected_groups_to_index/_factorize_multiple/"
+        "_ravel_factorized/_factorize_single and of groupby_reduce with 1-3 groupers (eager, dask values, dask labels, "
+        "broadcasting 2-D labels) against the Lean model and a pandas.cut / tuple-key oracle; exhaustive small-space enumerations "
+        "in the thorough tier; the witnesses of the four repaired defects C07-F1..F4 run first as corpus cases.",
+        "Lean 4 proof over a hand-written model; correspondence (differential) tie; exhaustive enumeration of small spaces; "
+        "failing-input search",
+        "DESIGN.md §7 C07"),
 ]
 
 _PENDING = "check not built yet in this round (planned: Lean model + correspondence, see DESIGN.md §7)"
